@@ -8,7 +8,13 @@
 //     output's value / script, output and input insertion / removal at every position, spent value,
 //     spent script) to a copy and re-run the interpreter on the signed input: must still accept iff
 //     the field is uncommitted per the (Go re-statement of the) table, must reject iff committed;
-//     the library's preimage must be unchanged iff uncommitted.
+//     the library's preimage must be unchanged iff uncommitted;
+//   - repeat the verification of every input, of every spent-value / spent-script mutant (all) and of every other
+//     mutant (one each, in turn) on the OTHER ways of handing transaction, input and spent output to
+//     Engine.Execute (callpath.go: locking script in the previous output / through WithScripts with a previous
+//     output that carries the value only / both; unlocking script in the input / through WithScripts / both;
+//     object off the wire / as signed / recording another output; option order; flag word; shared engine):
+//     the verdict must be the same on all of them.
 //
 // The Coq side (coq/corr/C04.v) re-computes every preimage with the model, evaluates the table of
 // spec/CommitSpec.v and runs the interpreter model with the signature opcodes of model/CheckSig.v
@@ -580,10 +586,19 @@ type twin struct {
 	Via    string       `json:"via"`
 	Tx     txgen.TxSpec `json:"tx"`
 	Mut    *mut         `json:"mutation,omitempty"`
+	Ctx    *vctx        `json:"call_path,omitempty"`
 	Detail string       `json:"detail,omitempty"`
 }
 
+// caseNo counts runCase calls; replayOnModel: which of the call-path observations of this case are also replayed
+// on the Coq model - all in the thorough tier, every other combination in the quick tier (alternating with the
+// case, so that every combination is replayed on every other case); the implementation runs all of them
+var caseNo int
+
+func replayOnModel(k int) bool { return c.Thorough() || (k+caseNo)%2 == 0 }
+
 func runCase(r *common.Rand, sh shape, kind string, ht uint8, flags uint32, viaFillAll bool, emit bool) {
+	caseNo++
 	forkid := ht&0x40 != 0
 	allowTail = flags&interpgen.FGenesis != 0
 	b := buildTx(r, sh, kind)
@@ -647,6 +662,30 @@ func runCase(r *common.Rand, sh shape, kind string, ht uint8, flags uint32, viaF
 		c.Tally(fmt.Sprintf("sign-path/%d/requested=%02x", path, req))
 		signed = append(signed, fmt.Sprintf("mkSigned %d %s %s %d %d", i, common.CoqBytes(pk), common.CoqBytes(sig), req, path))
 	}
+	// every input again, on every other way of handing the same transaction, input and spent output to the engine
+	cr := r.Fork()
+	var cobs []string
+	if allOK {
+		for i := range s.Ins {
+			for k := 0; k < 9; k++ {
+				v := randCtx(cr, k)
+				if k == 0 && v.Obj == 0 {
+					v.Obj = 1 + cr.Intn(2) // (previous output, input, off the wire) is the call made above
+				}
+				acc, msg := acceptsVia(s, i, flags, v)
+				c.Tally(fmt.Sprintf("call-path/lock=%d/unlock=%d/object=%d", v.Lock, v.Unlock, v.Obj))
+				if !acc {
+					ctw := tw
+					ctw.Idx, ctw.Ctx = i, &v
+					c.Violate("sign-verify/rejects-own-signature(call path)", fmt.Sprintf("input %d, %s: %s", i, v, msg), ctw)
+					allOK = false
+				}
+				if i == sh.idx && replayOnModel(k) {
+					cobs = append(cobs, ctxObs(s, i, v, "", acc))
+				}
+			}
+		}
+	}
 	c.Tally("sign/" + via + "/" + map[bool]string{true: "accepted", false: "FAILED"}[allOK])
 	if !allOK {
 		c.Case("", tw, "f"+bucket, false)
@@ -661,6 +700,7 @@ func runCase(r *common.Rand, sh shape, kind string, ht uint8, flags uint32, viaF
 		return
 	}
 	var mobs []string
+	mcount := 0
 	for _, m := range mutations(r, b, s, idx) {
 		m := m
 		ms := cloneSpec(s)
@@ -676,6 +716,31 @@ func runCase(r *common.Rand, sh shape, kind string, ht uint8, flags uint32, viaF
 		}
 		if !committed && !acc {
 			c.Violate("mutation/"+m.Class+"/rejected-but-uncommitted", fmt.Sprintf("type %02x input %d position %d", ht, idx, m.J), mtw)
+		}
+		// the same mutant on the other call paths: the mutations of the spent output on all of them, every other
+		// mutation on one (taken in turn)
+		ks := []int{1 + mcount%8}
+		if m.Class == "spent-value" || m.Class == "spent-script" {
+			ks = []int{0, 1, 2, 3, 4, 5, 6, 7, 8}
+		}
+		mcount++
+		for _, k := range ks {
+			v := randCtx(cr, k)
+			if k == 0 && v.Obj == 0 {
+				v.Obj = 1 + cr.Intn(2)
+			}
+			acc2, _ := acceptsVia(ms, mi, flags, v)
+			ctw := mtw
+			ctw.Ctx = &v
+			if committed && acc2 {
+				c.Violate("mutation/"+m.Class+"/accepted-but-committed(call path)", fmt.Sprintf("type %02x input %d position %d, %s", ht, idx, m.J, v), ctw)
+			}
+			if !committed && !acc2 {
+				c.Violate("mutation/"+m.Class+"/rejected-but-uncommitted(call path)", fmt.Sprintf("type %02x input %d position %d, %s", ht, idx, m.J, v), ctw)
+			}
+			if ((m.Class == "spent-value" && (k == 1 || k == 4 || k == 8)) || (m.Class == "spent-script" && m.J == 0 && (k == 3 || k == 6))) && replayOnModel(k) {
+				cobs = append(cobs, ctxObs(ms, mi, v, m.coq, acc2))
+			}
 		}
 		pre, err := preimage(ms, mi, ht)
 		if err != nil {
@@ -695,8 +760,8 @@ func runCase(r *common.Rand, sh shape, kind string, ht uint8, flags uint32, viaF
 		for _, v := range vers {
 			vs = append(vs, fmt.Sprintf("(%s, %s, %s, %s)", common.CoqBytes(v.pk), common.CoqBytes(v.sig), common.CoqBytes(v.digest), common.CoqBool(v.ok)))
 		}
-		coq = fmt.Sprintf("mkCase %s %d%%nat %d %d %s\n  [%s]\n  [%s]\n  [%s]", txgen.Coq(s), idx, ht, flags, common.CoqStr(sha(pre0)),
-			strings.Join(signed, "; "), strings.Join(vs, ";\n   "), strings.Join(mobs, ";\n   "))
+		coq = fmt.Sprintf("mkCase %s %d%%nat %d %d %s\n  [%s]\n  [%s]\n  [%s]\n  [%s]", txgen.Coq(s), idx, ht, flags, common.CoqStr(sha(pre0)),
+			strings.Join(signed, "; "), strings.Join(vs, ";\n   "), strings.Join(mobs, ";\n   "), strings.Join(cobs, ";\n   "))
 	}
 	c.Case(coq, tw, fmt.Sprintf("%s/idx=%d/%s", bucket, sh.idx, common.Hex(pre0)), len(mobs) > 0)
 }
@@ -791,7 +856,7 @@ func main() {
 			}
 		}
 	}
-	c.Stats.Rule = "each case: a transaction shape (inputs 1..4, outputs 0..4, signed position; quick: 12 shapes covering idx<nouts, idx=nouts-1, idx=nouts, idx>nouts; thorough: all 50, four rounds of fresh keys and fields) x one of the 6 FORKID types (flags FORKID|GENESIS) or 6 legacy types (flags none / GENESIS) x P2PKH or P2PKH-inscription previous output (built with the library: NewP2PKHFromPubKeyBytes, Tx.Inscribe), fresh seeded keys per input, random fields, pairwise distinct outputs; all inputs signed through unlocker.Simple (tx.FillInput with the type given or, for ALL|FORKID, left at 0; the unlocker called directly with type 0 + InsertInputUnlockingScript; tx.FillAllInputs for ALL|FORKID on every other shape - the Coq side replays the same calls on the signing model and compares scripts, type byte and shape), every input run through the real interpreter; then EVERY single-field mutation at EVERY position (version, locktime, per input txid/vout/sequence, per output value/script, output insert at 0..n and remove, input insert at 0..n and remove (not the signed one), spent value, spent script (+OP_NOP; inscription payload byte)) applied to a copy, interpreter re-run on the signed input and preimage recomputed; plus, per case, a signing history on one object (sign, edit one or two fields in place keeping the counts, sign again, every input must verify). A case is distinct by (kind, type, shape, position, preimage) and non-trivial when at least one mutation was evaluated; Coq re-computes all preimages, the table and the interpreter model verdicts."
+	c.Stats.Rule = "each case: a transaction shape (inputs 1..4, outputs 0..4, signed position; quick: 12 shapes covering idx<nouts, idx=nouts-1, idx=nouts, idx>nouts; thorough: all 50, four rounds of fresh keys and fields) x one of the 6 FORKID types (flags FORKID|GENESIS) or 6 legacy types (flags none / GENESIS) x P2PKH or P2PKH-inscription previous output (built with the library: NewP2PKHFromPubKeyBytes, Tx.Inscribe), fresh seeded keys per input, random fields, pairwise distinct outputs; all inputs signed through unlocker.Simple (tx.FillInput with the type given or, for ALL|FORKID, left at 0; the unlocker called directly with type 0 + InsertInputUnlockingScript; tx.FillAllInputs for ALL|FORKID on every other shape - the Coq side replays the same calls on the signing model and compares scripts, type byte and shape), every input run through the real interpreter; then EVERY single-field mutation at EVERY position (version, locktime, per input txid/vout/sequence, per output value/script, output insert at 0..n and remove, input insert at 0..n and remove (not the signed one), spent value, spent script (+OP_NOP; inscription payload byte)) applied to a copy, interpreter re-run on the signed input and preimage recomputed; plus, per case, a signing history on one object (sign, edit one or two fields in place keeping the counts, sign again, every input must verify); plus CALL PATHS: every input of the signed transaction, its spent-value and spent-script mutants (all nine combinations) and every other mutant (one combination each, taken in turn) verified again on the other ways of handing the same transaction, input and spent output to Engine.Execute - locking script in the previous output of WithTx / through WithScripts with a previous output that carries the value only / both, x unlocking script in the input / through WithScripts with an input that has none / both, with the checked input of the object recording nothing / what was signed / another value and script, the other inputs with or without their recorded outputs, the options in three orders, the flags as options or as one WithFlags word, a fresh or an already used engine, shared or separate script objects (drawn per call): accepted / rejected exactly as on the canonical call; of these calls, per case, the nine on the signed input, three on the spent-value mutant and two on the spent-script mutant (quick tier: every other one, alternating with the case) are also replayed on the model (model/EngineCall.v). A case is distinct by (kind, type, shape, position, preimage) and non-trivial when at least one mutation was evaluated; Coq re-computes all preimages, the table and the interpreter model verdicts."
 	c.Finish()
 }
 
